@@ -18,7 +18,7 @@ from __future__ import annotations
 import ast
 import copy
 
-from .core import Program, is_self_attr, unparse, NOCONST
+from .core import Program, is_self_attr, unparse, NOCONST, const_value
 
 ORD = {'lt': -1, 'eq': 0, 'gt': 1}
 
@@ -233,3 +233,48 @@ class GuardEval:
 
 def load_enums(prog: Program, names):
     return {n: prog.enum_members(n) for n in names}
+
+
+# ----------------------------------------------------------------- decision lists
+AMBIG = 'AMBIG'
+NORETURN = 'NORETURN'
+RAISE = 'RAISE'
+
+
+def eval_decision_list(stmts, ge: GuardEval, on_return=None, skip_other=True):
+    """Outcome of a body made of if / return / raise (other simple statements skipped) under the environment
+    of `ge`: a constant, RAISE, ('expr', node) for a non-constant return, AMBIG when a test is undetermined,
+    NORETURN when the body falls through."""
+    for s in stmts:
+        if isinstance(s, ast.If):
+            v = ge.ev(s.test)
+            if v is None:
+                return AMBIG
+            r = eval_decision_list(s.body if v else s.orelse, ge, on_return, skip_other)
+            if r != NORETURN:
+                return r
+        elif isinstance(s, ast.Raise):
+            return RAISE
+        elif isinstance(s, ast.Return):
+            if s.value is None:
+                return None
+            if on_return is not None:
+                return on_return(s.value)
+            v = s.value
+            if isinstance(v, ast.IfExp):
+                t = ge.ev(v.test)
+                if t is None:
+                    return AMBIG
+                v = v.body if t else v.orelse
+            c = const_value(v)
+            if c is NOCONST:
+                if isinstance(v, (ast.Compare, ast.BoolOp)) or (isinstance(v, ast.UnaryOp) and isinstance(v.op, ast.Not)):
+                    b = ge.ev(v)
+                    return ('expr', v) if b is None else b
+                return ('expr', v)
+            return c
+        elif isinstance(s, (ast.Pass, ast.Expr, ast.Assign, ast.AnnAssign, ast.AugAssign)) and skip_other:
+            continue
+        else:
+            return AMBIG
+    return NORETURN
